@@ -102,6 +102,8 @@ class Run:
         self.rng = random.Random(seed)
         self.pkg = None
         self.timeout_s = 60 if tier == "quick" else 300
+        self.check_budget_s = 420 if tier == "quick" else 5400
+        self.explore_budget_s = 150 if tier == "quick" else 1500     # per scenario instance; exceeding it is UNDECIDED, never a verdict
         self.replay_dir = os.path.join(VERIF, "replays", pid)
         self.native_evals = 0
         self.native_distinct = set()
@@ -139,6 +141,11 @@ class Run:
         sname = scenario.__name__
         t0 = time.time()
         holder = {}
+        if time.time() - self.t0 > self.check_budget_s:
+            self.engine_failures.append((label, f"Undecided: the check's overall symbolic-execution budget ({self.check_budget_s}s) is used up"))
+            if fallback:
+                self.fallbacks[label] = fallback
+            return None
 
         def fn():
             M = SymMode(pkg)
@@ -147,7 +154,7 @@ class Run:
             return scenario(M, **params)
 
         try:
-            paths = core.explore(fn, max_paths=max_paths)
+            paths = core.explore(fn, max_paths=max_paths, budget_s=self.explore_budget_s)
         except (core.Unsupported, core.Undecided) as e:
             self.engine_failures.append((label, f"{type(e).__name__}: {e}"))
             if fallback:
@@ -228,7 +235,11 @@ class Run:
         _WORK = work
         ctx = mp.get_context("fork")
         total = 0
+        t_end = time.time() + self.explore_budget_s
         while frontier:
+            if time.time() > t_end:
+                self.engine_failures.append((label, f"Undecided: exploration time budget exceeded ({self.explore_budget_s}s)"))
+                break
             # level-synchronous breadth-first exploration: every path of the current frontier in parallel
             if len(frontier) < 3:
                 outs = [work(d) for d in frontier]
@@ -403,6 +414,14 @@ class Run:
     def finish(self, rule="", explanation="", extra=None):
         if self.tasks:
             self.discharge()
+        try:
+            from . import conformance
+            self.conformance = conformance.run(loader.Package(), self.seed)
+            if self.conformance["numpy_model_mismatches"] or self.conformance["cross_check_mismatches"]:
+                self.errors.append(f"conformance pass failed: {self.conformance}")
+        except Exception as e:
+            self.conformance = {"error": f"{type(e).__name__}: {e}"}
+            self.errors.append(f"conformance pass crashed: {type(e).__name__}: {e}")
         self.judge()
         self.run_fallbacks()
         known_refuted = getattr(self, "known_refuted", 0)
@@ -469,6 +488,7 @@ class Run:
             "callee_stubs": sorted(self.stubs_used),
             "callees_inlined": sorted(self.inlined),
             "paths_pruned_by_redraw_bound": core.PRUNED[0],
+            "conformance": getattr(self, "conformance", None),
             "checker_errors": self.errors,
             "notes": self.notes,
         }
